@@ -2,19 +2,42 @@
     invocation with its spelling script, the command line rendered by the
     harness's own (Python) [spell], and what the real parser returned. *)
 From InvokeVerif Require Export Corr.ParserCorr Spec.C01Spec.
+From InvokeVerif Require Export Common.SigTypes.
+From InvokeVerif Require Import Model.SigModel.
 
 Record case := mk {
-  c_cs : list ctxspec;
+  c_cs : list ctxspec;            (* the implementation's own contexts (Collection.to_contexts) *)
+  c_sigs : list (nat * tsig);     (* the task signatures they were built from: (context index, signature) *)
   c_inv : invocation;
   c_argv : list string;
   c_obs : result pobs
 }.
 
+(** The contexts the parser model is run on are those the *signature model*
+    (C09: Model/SigModel.v, [get_arguments]) derives from the task signatures --
+    kinds, defaults, positional/optional/counter flags, names and short flags --
+    not merely whatever the implementation produced.  ([inspect.Signature.empty]
+    as the default of an iterable parameter is canonicalised to None on both
+    sides.) *)
+Definition canon_default (v : aval) : aval :=
+  if aval_eqb v empty_sentinel then ANone else v.
+
+Definition argspec_agree (m o : argspec) : bool :=
+  argspec_eqb (mkArg (a_names m) (a_kind m) (canon_default (a_default m)) (a_positional m)
+                     (a_optional m) (a_incrementable m) (a_attr_name m)) o.
+
+Definition sig_agree (c : case) : bool :=
+  forallb (fun it => match nth_error (c_cs c) (fst it) with
+                     | Some cx => list_eqb argspec_agree (get_arguments (snd it)) (cx_args cx)
+                     | None => false
+                     end) (c_sigs c).
+
 (** model = implementation on this command line, and the two independent
     renderers (Coq [spell], Python spell) agree *)
 Definition corr (c : case) : bool :=
   res_eqb pobs_eqb (model_parse (c_cs c) ICore false (c_argv c)) (c_obs c)
-  && list_eqb String.eqb (spell (c_cs c) (c_inv c)) (c_argv c).
+  && list_eqb String.eqb (spell (c_cs c) (c_inv c)) (c_argv c)
+  && sig_agree c.
 
 Definition spec (c : case) : bool := spec_ok (c_cs c) (c_inv c) (c_obs c).
 
